@@ -174,3 +174,37 @@ pub fn pin_run(rep: &Report, prop: &str, tag: &str, p: &Pinned, vals: &[Val], en
     }
     Some(r2.is_ok())
 }
+
+/// A type that differs from `ty` only in a position the value `v` does not inhabit (the payload type of a `None`, the
+/// other side of a `Left` / `Right`, the element type of an empty list or of a zero-length array), searched depth
+/// first.  `v` is also a well-formed value of the returned type, but the two types are different.
+pub fn hidden_position_variant(ty: &Ty, v: &Val) -> Option<Ty> {
+    fn other(t: &Ty) -> Ty {
+        if *t == Ty::U(8) {
+            Ty::U(16)
+        } else {
+            Ty::U(8)
+        }
+    }
+    match (ty, v) {
+        (Ty::Option(x), Val::None) => Some(Ty::opt(other(x))),
+        (Ty::Option(x), Val::Some(i)) => hidden_position_variant(x, i).map(Ty::opt),
+        (Ty::Either(l, r), Val::Left(i)) => Some(hidden_position_variant(l, i).map(|l2| Ty::either(l2, (**r).clone())).unwrap_or_else(|| Ty::either((**l).clone(), other(r)))),
+        (Ty::Either(l, r), Val::Right(i)) => Some(hidden_position_variant(r, i).map(|r2| Ty::either((**l).clone(), r2)).unwrap_or_else(|| Ty::either(other(l), (**r).clone()))),
+        (Ty::List(x, n), Val::List(es)) if es.is_empty() => Some(Ty::list(other(x), *n)),
+        (Ty::Array(x, 0), _) => Some(Ty::arr(other(x), 0)),
+        (Ty::List(x, n), Val::List(es)) => es.iter().find_map(|e| hidden_position_variant(x, e)).map(|x2| Ty::list(x2, *n)),
+        (Ty::Array(x, n), Val::Array(es)) => es.iter().find_map(|e| hidden_position_variant(x, e)).map(|x2| Ty::arr(x2, *n)),
+        (Ty::Tuple(ts), Val::Tuple(vs)) => {
+            for (k, (t, e)) in ts.iter().zip(vs).enumerate() {
+                if let Some(t2) = hidden_position_variant(t, e) {
+                    let mut ts2 = ts.clone();
+                    ts2[k] = t2;
+                    return Some(Ty::Tuple(ts2));
+                }
+            }
+            None
+        }
+        _ => None,
+    }
+}
